@@ -339,18 +339,17 @@ Variable q : position.
 Hypothesis Hwf : WF q.
 Variable m : move.
 Variable captured : piece.
+Variable mp : piece.      (* the moving piece: the piece on the to-square, or a pawn for an un-promotion *)
 
 Let f := mfrom m.
 Let t := mto m.
 Let sqsQ := squares q.
-Let mp := nthP sqsQ t.
 Let wm := negb (whiteMove q).
 
 Hypothesis Hf : f < 64.
 Hypothesis Ht : t < 64.
 Hypothesis Hft : f <> t.
 Hypothesis Hfe : nthP sqsQ f = EMPTY.
-Hypothesis Hown : has_color wm mp = true.
 (* the moved piece is not a rook that still has its castling flag, nor a king that has one *)
 Hypothesis Hflag : forall i, i < 4 -> N.testbit (castleMask q) i = true -> t <> homeR i /\ t <> homeK i.
 Hypothesis Hnc : isKingPiece mp = true -> (getKingDistance f t <= 1)%Z.
@@ -594,7 +593,7 @@ Proof.
   pose proof (makeMove_abs zk (unMakeMove zk q m ui) m Cp Hf) as Hm. rewrite Hr in Hm.
   assert (Hcm : N.land (N.land (u_castleMask ui) (castleSqMask f)) (castleSqMask t) = castleMask q).
   { rewrite Eui. cbn [u_castleMask].
-    apply (castle_back q Hwf m captured Hf Ht Hft Hfe); auto; try (fold sqsQ mp; rewrite Hmp; exact Hcol). }
+    apply (castle_back q Hwf m captured mp Hf Ht Hft Hfe); auto. }
   fold f t in Hm. rewrite Hcm in Hm.
   unfold successor, prev.
   assert (Hep1 : epSquare (fst (makeMove zk (unMakeMove zk q m ui) m)) = (-1)%Z) by (apply (f_equal sp_ep) in Hm; exact Hm).
